@@ -59,10 +59,22 @@ Definition pcell_eqb (a b : pcell) : bool :=
   | CPay m, CPay n => msg_eqb m n
   | _, _ => false
   end.
-Definition view := pcell -> nat.
-Definition vbot : view := fun _ => 0%nat.
-Definition vjoin (a b : view) : view := fun c => Nat.max (a c) (b c).
-Definition vupd (v : view) (c : pcell) (n : nat) : view := fun d => if pcell_eqb d c then n else v d.
+(* a view is a finite table cell -> version (absent = 0); join is the pointwise maximum.  Tables
+   are kept free of duplicate keys by [vins] so that they stay small along an execution. *)
+Definition view := list (pcell * nat).
+Definition vbot : view := [].
+Fixpoint vget (l : view) (c : pcell) : nat :=
+  match l with
+  | [] => 0%nat
+  | (d, k) :: r => if pcell_eqb c d then Nat.max k (vget r c) else vget r c
+  end.
+Fixpoint vins (c : pcell) (n : nat) (l : view) : view :=
+  match l with
+  | [] => [(c, n)]
+  | (d, k) :: r => if pcell_eqb d c then (d, Nat.max k n) :: r else (d, k) :: vins c n r
+  end.
+Definition vjoin (a b : view) : view := fold_right (fun cn acc => vins (fst cn) (snd cn) acc) b a.
+Definition vupd (v : view) (c : pcell) (n : nat) : view := vins c n v.
 Definition acq_join (mo : memorder) (seen stamp : view) : view := if is_acq mo then vjoin seen stamp else seen.
 Definition rel_stamp (mo : memorder) (seen : view) : view := if is_rel mo then seen else vbot.
 Definition rmw_stamp (mo : memorder) (seen stamp : view) : view := if is_rel mo then vjoin stamp seen else stamp.
@@ -264,7 +276,7 @@ Definition full_check (g : cfg) (nw nr : nat) (s : csys) : csys :=
 (* void *data = chan->blocks[rpos].data   with the view discipline: a read that is not covered by
    the reader's view may (choice 1) return the previous content of the slot *)
 Definition slot_read (s : csys) (v : view) (i : Z) (ch : nat) : option msg * bool :=
-  let cov := Nat.eqb (v (CSlot i)) (c_sver s i) in
+  let cov := Nat.eqb (vget v (CSlot i)) (c_sver s i) in
   (if cov then c_slot s i else if Nat.eqb ch 1 then c_prev s i else c_slot s i, cov).
 
 (* ------------------------------------------------------------------ *)
@@ -354,7 +366,7 @@ Definition cmicro (g : cfg) (s : csys) (t : nat) (ch : nat) : option (csys * lis
   | RLoop => Some (go RLoadW, [])
   | RRet =>
     let d := t_d x in
-    let cov := match d with Some m' => Nat.eqb (t_view x (CPay m')) (c_pver s m') | None => true end in
+    let cov := match d with Some m' => Nat.eqb (vget (t_view x) (CPay m')) (c_pver s m') | None => true end in
     let fld := match d with
                | Some m' => if cov then c_pay s m' else if Nat.eqb ch 1 then 0 else c_pay s m'
                | None => -1 end in
